@@ -221,7 +221,7 @@ Section PrfFacts.
     destruct (Nat.ltb_spec n 10); [discriminate|].
     unfold hkdf.
     rewrite (hkdf_expand_stream (Hash a) (block_size a) (digest_size a) (Hash_len a) (digest_pos a)) by lia.
-    intros E. inversion E; subst. exists a. repeat split; try lia.
+    intros E. injection E as <-. exists a. split; [reflexivity|]. split; [lia|]. split; [|reflexivity].
     rewrite firstn_length, (hkdf_blocks_length (Hash a) (block_size a) (digest_size a) (Hash_len a)). lia.
   Qed.
 
